@@ -55,7 +55,9 @@ reduction (`R5-r2`: the contract of its core is conjectured correctly by the fit
 bit-index `exp` loop (`R1-r2`: every counter value is a separate inductive step; 36 of 64 are proved before the budget ends) and the dedicated
 CUDA squaring on the pre-Volta path (`R9-r2`).
 
-Outcome (`./refcheck.sh`, quick tier, last run recorded in `refactorings/results.txt`):
+Outcome (`./refcheck.sh`, quick tier, last full run recorded in `refactorings/results.txt`; after the engine changes of seeded rounds 4 and 5 -
+caller-buffer extent query, GMP contracts, final-memory comparison, per-coefficient witnesses, if-clause stubs and the 256-row tree - the eleven
+refactorings that touch those paths were re-run: no VIOLATION, no inconclusive answer, `refactorings/results_after_round5.txt`):
 
 | refactoring | what it restructures | checks run | result |
 |---|---|---|---|
